@@ -5,6 +5,7 @@ import vcheck as V
 from props_common import HARNESS_TB, EXTRACT_TB
 
 KINDS = ["json", "text", "nano"]
+FLAGS = {"clips": "111", "fresh": "111"}
 
 
 def run_loggerfacts(which):
@@ -20,6 +21,15 @@ def run_loggerfacts(which):
     return p.returncode, p.stdout, p.stderr
 
 
+def selftest(tier):
+    """thorough tier: the recogniser's own test-suite (breaking rewrites must flip a fact or be refused, harmless ones must pass)"""
+    if tier != "thorough":
+        return None
+    rc, out, dt = V.run(["go", "test", "-count=1", "."], cwd=os.path.join(V.VERIF, "gen", "loggerfacts"),
+                        env=dict(V.GOENV, LOGGERFACTS_REPO="/repo"), timeout=300)
+    return {"rc": rc, "tail": out.strip().splitlines()[-3:]}
+
+
 def c03_static(tier):
     """Source facts -> Coq: clone() clips, WithAttrs/WithGroup write only the clone; per handler type the
     discipline theorem is instantiated (facts_ok by vm_compute, then C03_isolation_from_facts)."""
@@ -31,9 +41,17 @@ def c03_static(tier):
         cov["source_facts"] = {"recognised": False, "stderr": err.strip().splitlines()[:10]}
         return 3, 0, probs, cov
     facts = dict(re.findall(r"Definition (\w+)_chain_facts : chain_facts := mkChainFacts ([a-z ]+)\.", out))
+    st = selftest(tier)
+    if st:
+        cov["source_facts_selftest"] = st
     cov["source_facts"] = {"recognised": True,
-                           "fields": "clone_clips with_attrs_fresh with_group_fresh group_returns_receiver",
+                           "fields": "clone_clips with_attrs_fresh with_group_fresh group_returns_receiver logger_with_returns_new_logger",
                            "facts": facts, "notes": re.findall(r"\(\* (.*?) \*\)", out)}
+    # the model in the driver / cases.v runs under the discipline read from the source (per handler kind)
+    bits = {k: (facts.get(k) or "false false false false false").split() for k in KINDS}
+    FLAGS["clips"] = "".join("1" if bits[k][0] == "true" else "0" for k in KINDS)
+    FLAGS["fresh"] = "".join("1" if bits[k][1] == "true" and bits[k][2] == "true" and bits[k][4] == "true" else "0" for k in KINDS)
+    CFG["drv_args"] = [FLAGS["clips"], FLAGS["fresh"]]
     done = 0
     for k in KINDS:
         text = (out + "From Glb Require Import Properties.C03.\n"
@@ -45,7 +63,7 @@ def c03_static(tier):
             done += 1
         else:
             probs.append(("proof", "the %s handler's source no longer satisfies the discipline the isolation theorem needs "
-                          "(facts %s = clone_clips, with_attrs_fresh, with_group_fresh, group_returns_receiver): facts_ok does not check"
+                          "(facts %s = clone_clips, with_attrs_fresh, with_group_fresh, group_returns_receiver, logger_with_returns_new_logger): facts_ok does not check"
                           % (k, facts.get(k)),
                           {"broken": "chain_discipline %s_chain_facts = true (instantiating C03_isolation_from_facts)" % k,
                            "facts": facts.get(k), "notes": cov["source_facts"]["notes"], "coq_output_tail": cout[-800:]}))
@@ -74,7 +92,9 @@ def c03_casesv(lines):
                     ops.append("CG %s %s%%N %s" % (p[1], p[2], p[3]))
                 else:
                     ops.append("CL %s %s %s%%N %s %s %s" % (p[1], "true" if p[2] == "1" else "false", p[3], p[4], _nints(p[5]), _nints(p[6])))
-            rows.append("verdict_ok (check_case %s true true [%s])" % (f[1], "; ".join(ops)))
+            kk = int(f[1])
+            rows.append("verdict_ok (check_case %s %s %s [%s])" % (f[1], "true" if FLAGS["clips"][kk] == "1" else "false",
+                                                                  "true" if FLAGS["fresh"][kk] == "1" else "false", "; ".join(ops)))
         else:
             rows.append("(let p := check_callsite %s %s %s %s %s %s in fst p && snd p)" % (
                 f[1], "true" if f[2] == "1" else "false", f[3], f[4], f[5], f[6]))
@@ -100,8 +120,16 @@ CFG = dict(
                   "gen/loggerfacts (go/ast): reads clone/WithAttrs/WithGroup of the three handlers and reports whether preformatted is "
                   "clipped and whether only the fresh clone is written; it refuses (broken correspondence) when the code shape is not the one it knows",
                   "Lib/GoSlice.v as the reading of the Go specification of append/slices.Clip (in place when it fits, any capacity >= needed otherwise)"],
-    assumptions=["byte-level rendering is a parameter of the theorems (C01/C13 own it); C03 holds for every rendering",
-                 "concurrent derivation adds nothing once a published handler is never written (facts + race detector in the harness)"],
+    assumptions=["PARTIAL: the theorems cover SEQUENTIAL histories with an atomic Derive and only the `preformatted` backing-array channel "
+                 "(plus the value-copied context); other shared state - TextHandler's prefixPool, slice-typed context fields, *Options, the "
+                 "Logger wrapper, package-level variables - is covered by the source facts and the harness only",
+                 "byte-level rendering is a parameter of the theorems (C01/C13 own it); C03 holds for every rendering; "
+                 "C03_with_is_callsite assumes the rendering is compositional (shown inhabited, not discharged for the real renderers)",
+                 "concurrent derivation adds nothing once a published handler is never written (facts + race detector in the harness)",
+                 "the source facts are SYNTACTIC pattern recognisers (rules in the header of gen/loggerfacts/main.go; self-test "
+                 "gen/loggerfacts/main_test.go with breaking and harmless rewrites): one known shape per function, anything else is "
+                 "refused (UNRECOGNISED => broken correspondence); they see no data flow through locals, no reflection, no state reachable "
+                 "only through Options or through functions outside clone/WithAttrs/WithGroup/Logger.With"],
 )
 CFG["manifest"] = dict(
     text=("Proof: C03_isolation / C03_every_logged_line / C03_published_bytes_immutable hold for every rendering of attributes and "
@@ -112,7 +140,8 @@ CFG["manifest"] = dict(
           "instantiated with it (facts_ok by vm_compute). Tie: random derivation trees (depth<=5, fan-out<=4), a dense sweep of "
           "sibling pairs over parent sizes across append growth steps, concurrent derivation from a shared parent under -race; "
           "every line is compared with an isolated replay in the implementation and its marker ids with the heap model."),
-    note=("Trusted: Coq kernel; Lib/GoSlice as the semantics of append; the source-facts extractor; extraction + driver glue "
+    note=("Partial: sequential histories, atomic Derive, only the preformatted aliasing channel is modelled; the rest of the shared state "
+          "is covered by source facts (syntactic recognisers) and the harness. Trusted: Coq kernel; Lib/GoSlice as the semantics of append; the source-facts extractor; extraction + driver glue "
           "(cross-checked by vm_compute); Go harness and race detector. The bytes of a line are not modelled here (parameter)."),
     technique="Coq proof (heap of backing arrays, invariant over all operation sequences, parametric in the rendering) + source facts + differential harness under -race",
 )
